@@ -29,7 +29,8 @@ def cases(draw, rl):
     heavy_ok = draw(st.integers(0, 2)) > 0
     kinds = gen.ALL_KINDS if heavy_ok else gen.CHEAP
     cfg = draw(calib.config(kinds=kinds, max_d=4, max_len=4 if rl else 9, max_bs=4, rl=rl,
-                            losses=("minkowski", "msm", "fourier", "gsl", "likelihood")))
+                            losses=("minkowski", "msm", "fourier", "gsl", "likelihood"),
+                            model_kinds=("gauss", "ar1", "poly", "mutating", "legacy")))
     if rl:
         cfg["loss"] = dict(cfg["loss"], weights=None)
         if cfg["loss"]["kind"] == "likelihood":
